@@ -1,6 +1,9 @@
 gen/StatusTable.vo gen/StatusTable.glob gen/StatusTable.v.beautified gen/StatusTable.required_vo: gen/StatusTable.v theories/Base.vo theories/Status.vo
 gen/StatusTable.vio: gen/StatusTable.v theories/Base.vio theories/Status.vio
 gen/StatusTable.vos gen/StatusTable.vok gen/StatusTable.required_vos: gen/StatusTable.v theories/Base.vos theories/Status.vos
+gen/SummaryTables.vo gen/SummaryTables.glob gen/SummaryTables.v.beautified gen/SummaryTables.required_vo: gen/SummaryTables.v theories/Base.vo theories/Status.vo
+gen/SummaryTables.vio: gen/SummaryTables.v theories/Base.vio theories/Status.vio
+gen/SummaryTables.vos gen/SummaryTables.vok gen/SummaryTables.required_vos: gen/SummaryTables.v theories/Base.vos theories/Status.vos
 theories/Base.vo theories/Base.glob theories/Base.v.beautified theories/Base.required_vo: theories/Base.v 
 theories/Base.vio: theories/Base.v 
 theories/Base.vos theories/Base.vok theories/Base.required_vos: theories/Base.v 
@@ -34,6 +37,9 @@ theories/RunnerHooks.vos theories/RunnerHooks.vok theories/RunnerHooks.required_
 theories/RunnerQuiet.vo theories/RunnerQuiet.glob theories/RunnerQuiet.v.beautified theories/RunnerQuiet.required_vo: theories/RunnerQuiet.v theories/Base.vo theories/Status.vo theories/Rollup.vo theories/Runner.vo theories/RunnerSteps.vo theories/RunnerVerdict.vo gen/StatusTable.vo
 theories/RunnerQuiet.vio: theories/RunnerQuiet.v theories/Base.vio theories/Status.vio theories/Rollup.vio theories/Runner.vio theories/RunnerSteps.vio theories/RunnerVerdict.vio gen/StatusTable.vio
 theories/RunnerQuiet.vos theories/RunnerQuiet.vok theories/RunnerQuiet.required_vos: theories/RunnerQuiet.v theories/Base.vos theories/Status.vos theories/Rollup.vos theories/Runner.vos theories/RunnerSteps.vos theories/RunnerVerdict.vos gen/StatusTable.vos
+theories/RunnerRange.vo theories/RunnerRange.glob theories/RunnerRange.v.beautified theories/RunnerRange.required_vo: theories/RunnerRange.v theories/Base.vo theories/Status.vo theories/Rollup.vo theories/RollupProofs.vo theories/Runner.vo theories/RunnerSteps.vo gen/StatusTable.vo
+theories/RunnerRange.vio: theories/RunnerRange.v theories/Base.vio theories/Status.vio theories/Rollup.vio theories/RollupProofs.vio theories/Runner.vio theories/RunnerSteps.vio gen/StatusTable.vio
+theories/RunnerRange.vos theories/RunnerRange.vok theories/RunnerRange.required_vos: theories/RunnerRange.v theories/Base.vos theories/Status.vos theories/Rollup.vos theories/RollupProofs.vos theories/Runner.vos theories/RunnerSteps.vos gen/StatusTable.vos
 theories/RunnerSelect.vo theories/RunnerSelect.glob theories/RunnerSelect.v.beautified theories/RunnerSelect.required_vo: theories/RunnerSelect.v theories/Base.vo theories/Status.vo theories/Rollup.vo theories/RollupProofs.vo theories/Runner.vo theories/RunnerSteps.vo theories/RunnerQuiet.vo gen/StatusTable.vo
 theories/RunnerSelect.vio: theories/RunnerSelect.v theories/Base.vio theories/Status.vio theories/Rollup.vio theories/RollupProofs.vio theories/Runner.vio theories/RunnerSteps.vio theories/RunnerQuiet.vio gen/StatusTable.vio
 theories/RunnerSelect.vos theories/RunnerSelect.vok theories/RunnerSelect.required_vos: theories/RunnerSelect.v theories/Base.vos theories/Status.vos theories/Rollup.vos theories/RollupProofs.vos theories/Runner.vos theories/RunnerSteps.vos theories/RunnerQuiet.vos gen/StatusTable.vos
@@ -46,6 +52,12 @@ theories/RunnerVerdict.vos theories/RunnerVerdict.vok theories/RunnerVerdict.req
 theories/Status.vo theories/Status.glob theories/Status.v.beautified theories/Status.required_vo: theories/Status.v theories/Base.vo
 theories/Status.vio: theories/Status.v theories/Base.vio
 theories/Status.vos theories/Status.vok theories/Status.required_vos: theories/Status.v theories/Base.vos
+theories/Summary.vo theories/Summary.glob theories/Summary.v.beautified theories/Summary.required_vo: theories/Summary.v theories/Base.vo theories/Status.vo theories/Rollup.vo theories/Runner.vo gen/StatusTable.vo gen/SummaryTables.vo
+theories/Summary.vio: theories/Summary.v theories/Base.vio theories/Status.vio theories/Rollup.vio theories/Runner.vio gen/StatusTable.vio gen/SummaryTables.vio
+theories/Summary.vos theories/Summary.vok theories/Summary.required_vos: theories/Summary.v theories/Base.vos theories/Status.vos theories/Rollup.vos theories/Runner.vos gen/StatusTable.vos gen/SummaryTables.vos
+theories/SummaryProofs.vo theories/SummaryProofs.glob theories/SummaryProofs.v.beautified theories/SummaryProofs.required_vo: theories/SummaryProofs.v theories/Base.vo theories/Status.vo theories/Rollup.vo theories/RollupProofs.vo theories/Runner.vo theories/RunnerRange.vo theories/Summary.vo gen/StatusTable.vo gen/SummaryTables.vo
+theories/SummaryProofs.vio: theories/SummaryProofs.v theories/Base.vio theories/Status.vio theories/Rollup.vio theories/RollupProofs.vio theories/Runner.vio theories/RunnerRange.vio theories/Summary.vio gen/StatusTable.vio gen/SummaryTables.vio
+theories/SummaryProofs.vos theories/SummaryProofs.vok theories/SummaryProofs.required_vos: theories/SummaryProofs.v theories/Base.vos theories/Status.vos theories/Rollup.vos theories/RollupProofs.vos theories/Runner.vos theories/RunnerRange.vos theories/Summary.vos gen/StatusTable.vos gen/SummaryTables.vos
 props/C01.vo props/C01.glob props/C01.v.beautified props/C01.required_vo: props/C01.v theories/Base.vo theories/Status.vo theories/Rollup.vo theories/Runner.vo theories/RunnerVerdict.vo theories/RunnerSteps.vo theories/RunnerQuiet.vo theories/RunnerEq.vo gen/StatusTable.vo
 props/C01.vio: props/C01.v theories/Base.vio theories/Status.vio theories/Rollup.vio theories/Runner.vio theories/RunnerVerdict.vio theories/RunnerSteps.vio theories/RunnerQuiet.vio theories/RunnerEq.vio gen/StatusTable.vio
 props/C01.vos props/C01.vok props/C01.required_vos: props/C01.v theories/Base.vos theories/Status.vos theories/Rollup.vos theories/Runner.vos theories/RunnerVerdict.vos theories/RunnerSteps.vos theories/RunnerQuiet.vos theories/RunnerEq.vos gen/StatusTable.vos
@@ -64,6 +76,9 @@ props/C12.vos props/C12.vok props/C12.required_vos: props/C12.v theories/Base.vo
 props/C13.vo props/C13.glob props/C13.v.beautified props/C13.required_vo: props/C13.v theories/Base.vo theories/Context.vo theories/ContextProofs.vo
 props/C13.vio: props/C13.v theories/Base.vio theories/Context.vio theories/ContextProofs.vio
 props/C13.vos props/C13.vok props/C13.required_vos: props/C13.v theories/Base.vos theories/Context.vos theories/ContextProofs.vos
+props/C14.vo props/C14.glob props/C14.v.beautified props/C14.required_vo: props/C14.v theories/Base.vo theories/Status.vo theories/Rollup.vo theories/Runner.vo theories/RunnerRange.vo theories/Summary.vo theories/SummaryProofs.vo theories/RunnerEq.vo gen/StatusTable.vo gen/SummaryTables.vo
+props/C14.vio: props/C14.v theories/Base.vio theories/Status.vio theories/Rollup.vio theories/Runner.vio theories/RunnerRange.vio theories/Summary.vio theories/SummaryProofs.vio theories/RunnerEq.vio gen/StatusTable.vio gen/SummaryTables.vio
+props/C14.vos props/C14.vok props/C14.required_vos: props/C14.v theories/Base.vos theories/Status.vos theories/Rollup.vos theories/Runner.vos theories/RunnerRange.vos theories/Summary.vos theories/SummaryProofs.vos theories/RunnerEq.vos gen/StatusTable.vos gen/SummaryTables.vos
 props/C18.vo props/C18.glob props/C18.v.beautified props/C18.required_vo: props/C18.v theories/Base.vo theories/Capture.vo theories/CaptureProofs.vo
 props/C18.vio: props/C18.v theories/Base.vio theories/Capture.vio theories/CaptureProofs.vio
 props/C18.vos props/C18.vok props/C18.required_vos: props/C18.v theories/Base.vos theories/Capture.vos theories/CaptureProofs.vos
